@@ -75,6 +75,7 @@ class Unit:
         self.entries = []    # ("include", path) | ("raw", text) | ("type", path, opts) | ("fn", FnSpec) | ("const", path)
         self.strips = []
         self.seen = set()
+        self.imported_ids = set()   # entries pulled in by @use: emitted in `mod verif_imported`, not re-verified
 
 
 def parse_unit(path):
@@ -132,6 +133,7 @@ def parse_unit(path):
                 if key in u.seen:
                     continue
                 u.seen.add(key)
+                u.imported_ids.add(id(e))
                 if e[0] == "fn":
                     e[1].imported = sub.name
                     e[1].hints = []
@@ -492,6 +494,10 @@ def build_fn(u, fs, log, probe=False):
     attrs = "".join("    %s\n" % a for a in fs.attrs)
     spec = ("\n" + fs.spec + "\n") if fs.spec.strip() else "\n"
     if fs.imported:
+        # imported declarations live in `mod verif_imported`: make them visible to the importing unit
+        tgt = fs.into or (rl.norm(cont.toks[cont.start:cont.body[0]]) if (cont is not None and cont.kind == "impl") else "")
+        if " for " not in rl.norm(tgt) and not re.match(r"\s*pub\b", sig_text):
+            sig_text = "pub " + sig_text
         fn_text = "%s    #[verifier::external_body] // proved in unit `%s`\n    %s%s    { unimplemented!() }\n" % (attrs, fs.imported, sig_text, spec)
         log.append({"rule": "import", "fn": fs.path, "unit": fs.imported})
     elif fs.nobody:
@@ -596,7 +602,22 @@ def assemble(unit_path, probe=False, no_hints=False, extra_requires=None):
     parts = [HEADER]
     fns = []
     includes = []
-    for e in u.entries:
+    imported = [e for e in u.entries if id(e) in u.imported_ids]
+    own = [e for e in u.entries if id(e) not in u.imported_ids]
+    if imported:
+        # material proved in other units: its own module, excluded from verification by --verify-root
+        parts.append("pub mod verif_imported {\nuse vstd::prelude::*;\nuse vstd::std_specs::ops::*;\nuse vstd::std_specs::cmp::*;\nuse vstd::std_specs::convert::*;\nuse super::*;\n")
+    for e in imported + [None] + own:
+        if e is None:
+            if imported:
+                parts.append("} // mod verif_imported\npub use verif_imported::*;\n")
+                # explicit re-exports of imported free functions: they win over glob imports of equally named vstd items
+                for ie in imported:
+                    if ie[0] == "fn":
+                        a_, hdr_, name_ = split_fn_path(ie[1].path)
+                        if hdr_ == "-":
+                            parts.append("pub use verif_imported::%s;\n" % name_)
+            continue
         if e[0] == "include":
             includes.append(e[1])
             parts.append("// ======== include %s ========\n" % e[1])
